@@ -91,6 +91,47 @@ def translate(h, out):
     return {"obs": obs}
 
 
+FINDING_KEY = "unstarted-abort-stalls-queue"
+
+
+def avoid_known(h):
+    """Open finding C43-unstarted-abort-stalls-queue: the specification models what evrpc.c does (named deviation
+    NoRescheduleAfterUnstarted) and flags the resulting state; the general corpus stops before the first such
+    step so that it neither masks other failures nor fails once the defect is fixed."""
+    out = []
+    for s in h:
+        if s["o"].get("stall"):
+            break
+        s = dict(s)
+        s["o"] = {k: v for k, v in s["o"].items() if k != "stall"}
+        out.append(s)
+    return out
+
+
+def canonical_finding(chk, exe):
+    """NeverReply call 1 occupies the connection, call 2 (aborted by its output hook) and call 3 are queued;
+    the server answers call 1.  The property requires call 3 to complete."""
+    nh = {"co": "cont", "ci": "cont", "si": "cont", "so": "cont"}
+    h = [{"a": "init", "m": 4},
+         {"a": "call", "k": 1, "kind": "never", "c": 1, "hk": nh},
+         {"a": "call", "k": 2, "kind": "msg", "c": 1, "hk": dict(nh, co="term")},
+         {"a": "call", "k": 3, "kind": "msg", "c": 1, "hk": nh},
+         {"a": "late", "k": 1}, {"a": "adv", "t": 5}, {"a": "adv", "t": 5}]
+    scen = {"cfg": {"nc": 3, "contents": CONTENTS}, "h": h}
+    out = vkit.run_driver(exe, [scen])[0]
+    chk.cov["traces_validated_against_impl"] += 1
+    if not isinstance(out, dict) or "obs" not in out or len(out["obs"]) != len(h):
+        chk.violation("canonical scenario of %s did not run: %s" % (FINDING_KEY, str(out)[:500]), {"scenario": scen, "driver": out})
+        return
+    comp = out["obs"][-1]["comp"]
+    if comp[0] != 1 or comp[1] != 1:
+        chk.violation("canonical scenario of %s: calls 1/2 completions %s (expected 1 each)" % (FINDING_KEY, comp),
+                      {"scenario": scen, "driver": out})
+    if comp[2] != 1:
+        chk.violation("call 3 queued behind a call aborted by its output hook never completes (completions %s)" % comp,
+                      {"scenario": scen, "driver": out}, key=FINDING_KEY)
+
+
 def nontrivial(h):
     return sum(1 for s in h if s["a"] in ("call", "raw")) >= 1 and len(h) >= 3
 
@@ -122,7 +163,7 @@ def run(tier, seed):
     exe = build_driver()
 
     # 1. the property on the reachable state graph of the bounded model
-    mc = consts(2 if q else 3, 0, range(0, 8), raw={"valid", "junk"})
+    mc = consts(2, 0, [1, 5, 7] if q else range(0, 8), raw={"valid", "junk"})
     cfg = vkit.write_cfg("C43_mc", mc, invariants=INVS, constraint="NoShare", view="StateView")
     res = vkit.tlc("Rpc", cfg, want_prints=False, coverage=True, workers=8, timeout=3000)
     chk.add_tlc("C43_mc", res)
@@ -138,7 +179,7 @@ def run(tier, seed):
         # malformed / foreign requests sent straight to the Message RPC
         dict(name="C43_exh_raw", consts=consts(1, 4, [0, 4], kinds={"msg", "never"}, hooks={"si"}, hacts={"pcont"})),
         # long random histories
-        dict(name="C43_rand", simulate=100 if q else 3000, depth=40,
+        dict(name="C43_rand", simulate=60 if q else 3000, depth=40,
              consts=consts(3, 10 if q else 14, range(0, 8), ncontent=3)),
     ]
     hg, status = {}, {}
@@ -148,6 +189,9 @@ def run(tier, seed):
         hists, seen = [], set()
 
         def sink(v, hists=hists, seen=seen):
+            v = avoid_known(v)
+            if len(v) < 2:
+                return
             k = hash(json.dumps(strip_obs(v), sort_keys=True))
             if k not in seen:
                 seen.add(k)
@@ -176,6 +220,7 @@ def run(tier, seed):
                            "driver": raw_outs[i]}, key=key)
         if fails:
             vkit.log("[C43] %s: %d/%d failed; first: %s" % (g["name"], len(fails), len(hists), fails[0][2][:400]))
+    canonical_finding(chk, exe)
     chk.cov["op_histogram"] = hg
     chk.cov["status_histogram"] = status
     need = ["call:msg", "call:never", "call:junk", "call:norpc", "resume", "adv", "late", "completion:ok", "completion:error",
@@ -193,9 +238,30 @@ def run(tier, seed):
     chk.assumptions += [
         "one pool connection, <= 3 calls; at most one deviating hook per call",
         "only the error/success class of the completion status is compared (the property fixes 'an error status'); exact codes are recorded in status_histogram",
-        "named deviations NoRescheduleAfterUnstarted and TimeoutSkipsInputHooks (see Rpc.tla)",
+        "named deviation TimeoutSkipsInputHooks (see Rpc.tla); NoRescheduleAfterUnstarted is the open finding "
+        "unstarted-abort-stalls-queue: histories are cut before the first step that reaches the stalled state and the "
+        "finding's canonical scenario is run separately",
         "not covered: connection failure at every byte of the exchange (only connection refused), two requests sharing one "
         "connection queue after a client-output pause (NoShare), changing the pool timeout between calls",
         "virtual clock (link-time wrapping); the loop is run with EVLOOP_NONBLOCK until quiescent after every step",
     ]
     return chk.finish()
+
+
+def replay(case, seed):
+    exe = build_driver()
+    c = case["case"]
+    if "scenario" in c:      # the canonical scenario of the open finding
+        out = vkit.run_driver(exe, [c["scenario"]])[0]
+        comp = out["obs"][-1]["comp"] if isinstance(out, dict) and out.get("obs") else None
+        if comp != [1, 1, 1]:
+            print("VIOLATION property=C43 replay=(replayed)")
+            vkit.log("  completions %s, expected [1, 1, 1]" % comp)
+            return 1
+        return 0
+    out = vkit.run_driver(exe, [{"cfg": c["cfg"], "h": strip_obs(c["h"])}])[0]
+    fails = vkit.compare_histories([c["h"]], [translate(c["h"], out)])
+    for f in fails:
+        print("VIOLATION property=C43 replay=(replayed)")
+        vkit.log("  step %d: %s" % (f[1], f[2]))
+    return 1 if fails else 0
